@@ -1,14 +1,14 @@
 # C01 — verified layers never return bytes that do not match the TOC-pinned digests
 PROPS["C01"] = dict(
     props_file="Properties/C01.v",
-    harnesses=[dict(cmd="verify", mod="root", model="Model.Verify", race=150, quick=220, thorough=8000, shard=75,
+    harnesses=[dict(cmd="verify", mod="root", model="Model.Verify", race=150, quick=330, thorough=8000, shard=75,
                     require=["op.vtoc", "op.skip", "op.lverify", "op.lverify.repeated", "op.lskip", "op.pf", "op.cache.real",
                              "op.cache.stepwise", "op.pfstart.add", "op.pfstart.write", "op.pfstart.commit", "op.pfstart.abort", "op.pfresume", "result.pfresume.aborted", "cache.mem", "cache.dir", "op.pass.batch", "op.pass.sequential", "op.pass.verified", "op.pass.unverified", "result.pass.ok", "result.pass.err", "result.pass.nofetch", "op.read.verified", "op.read.unverified", "op.probe",
                              "cor.none", "cor.flip", "cor.zero", "cor.replace", "cor.swap", "cor.tocdigest", "cor.tocreser", "cor.tocnodigest", "cor.toctrail", "comp.gzip", "comp.zstd", "minchunk",
                              "fetch.pre", "fetch.err",
                              "result.VerifyTOC.ok", "result.VerifyTOC.err", "result.layer.Verify.ok", "result.layer.Verify.err",
                              "result.read.ok", "result.read.err", "result.read.allcached", "result.pf.err", "result.probe.hit"]),
-               dict(cmd="verifydb", mod="cmdmod", model="Model.Verify", quick=90, thorough=3000, shard=75,
+               dict(cmd="verifydb", mod="cmdmod", model="Model.Verify", quick=200, thorough=3000, shard=75,
                     require=["op.vtoc", "op.lverify", "op.pf", "op.cache.real", "op.pfstart.write", "op.pass.batch", "op.pass.sequential", "op.read.verified", "cor.replace", "cor.toctrail", "fetch.pre", "result.read.err", "result.pass.err", "result.VerifyTOC.err"])],
     rule="eStargz blobs built by estargz.Build (gzip / zstd:chunked, chunk size 4..32, min-chunk-size 0/20/40/100, 1-3 files) then altered "
          "(bit flip / zeroed tail of a member, member replaced by a validly compressed different payload of the same size, two members swapped, "
